@@ -183,6 +183,17 @@ Injections == <<
   Inj("const literal not assignable to its type", "int16 = 40000", With(iC1, BadConst("int16", "c1", "40000"))),
   Inj("const literal not assignable to its type", "guid of wrong length", With(iC2, BadConst("guid", "c2", "\"0123\""))),
   Inj("const literal not assignable to its type", "float32 = string", With(iC2, BadConst("float32", "c2", "\"x\""))),
+  Inj("const literal not assignable to its type", "guid: 28 hex digits in 32 characters", With(iC2, BadConst("guid", "c2", "\"e2722bf7-022a-496a-9f01-7029d7d5\""))),
+  Inj("const literal not assignable to its type", "guid: 36 hex digits without hyphens", With(iC2, BadConst("guid", "c2", "\"e2722bf7022a496a9f017029d7d5563dabcd\""))),
+  Inj("const literal not assignable to its type", "guid: 31 hex digits", With(iC2, BadConst("guid", "c2", "\"e2722bf7022a496a9f017029d7d5563\""))),
+  Inj("const literal not assignable to its type", "guid: 33 hex digits hyphenated", With(iC2, BadConst("guid", "c2", "\"e2722bf7-022a-496a-9f01-7029d7d5563da\""))),
+  Inj("const literal not assignable to its type", "guid = integer", With(iC2, BadConst("guid", "c2", "7"))),
+  Inj("const literal not assignable to its type", "bool = string", With(iC1, BadConst("bool", "c1", "\"true\""))),
+  Inj("const literal not assignable to its type", "string = bool", With(iC2, BadConst("string", "c2", "true"))),
+  Inj("const literal not assignable to its type", "int64 = inf", With(iC1, BadConst("int64", "c1", "inf"))),
+  Inj("const literal not assignable to its type", "float64 = bool", With(iC1, BadConst("float64", "c1", "false"))),
+  Inj("const literal not assignable to its type", "uint16 = nan", With(iC1, BadConst("uint16", "c1", "nan"))),
+  Inj("const literal not assignable to its type", "const of a record type", With(iC1, BadConst("Point", "c1", "1"))),
   \* 9. names of primitives
   Inj("definition named like a primitive", "struct", Base \o << St("int32", << F("z", P("bool")) >>) >>),
   Inj("definition named like a primitive", "message", Base \o << Ms("guid", << FI(1, "z", P("bool")) >>) >>),
